@@ -381,7 +381,7 @@ func (rt *RT) Run(s *Script, method string, p Payloads, cl ClientSide, found fun
 					}()
 					r.b, r.st = cl.Response()
 				}()
-				time.Sleep(OpTimeout / 300) // let it get inside
+				time.Sleep(2 * time.Millisecond) // let it get inside (either order with the Free that follows is legal)
 			case "free":
 				// ... and another goroutine frees the call
 				if pn := safely(func() { cl.Free() }); pn != "" {
